@@ -48,7 +48,7 @@ VICTIM = [
     'emit("co", coroutine.wrap(function(a) local b = coroutine.yield(a + 1) return b * 2 end)(1))',
     'y = {n = (y and y.n or 0) + 1} setmetatable(y, {__index = function(_, k) return k .. "!" end}) emit("mi", y.n, y.foo)',
     'emit("u8", utf8.char(228, 8364), utf8.len("\\xc3\\xa4"), #string.pack("i4", 7))',
-    'emit("num", 7 // 2, 7 % -3, 2 ^ 10, 1 << 62, math.maxinteger + 1 == math.mininteger, tostring(1e15))',
+    'emit("num", math.abs(-3), math.floor(2.5), math.max(1, 2), 7 // 2, 7 % -3, 2 ^ 10, 1 << 62, math.maxinteger + 1 == math.mininteger, tostring(1e15))',
     'emit("env", _VERSION, type(_G), _G._G == _G, rawlen({1, 2}), next({}))',
     'io.write("w") print("p", 1) emit("io", io.type(io.stdout), tostring(io.stdout):sub(1, 4))',
     'emit("ctx", tostring(runtime.context()), runtime.context().flags)',
@@ -281,6 +281,10 @@ def run(tier, seed):
         if kr is not None:
             ck.known_finding(kr)
             ck.count("known-race:" + kr["id"], v["n"])
+        elif "runtime.(*Thread).end" in blk or "runtime.(*Thread).Resume" in blk or "runtime.(*Thread).Yield" in blk:
+            # a race inside ONE runtime's coroutine hand-off: the subject of C09, not of C20
+            ck.count("race-inside-one-runtime(C09):" + key, v["n"])
+            ck.notes.append("race report inside a single runtime's coroutine protocol (C09's subject), not counted for C20: " + key)
         else:
             ck.violation("data race between independent runtimes reported by the race detector: " + key,
                          {"kind": "race", "report": blk, "gomaxprocs": v["gomaxprocs"], "count": v["n"]})
